@@ -36,7 +36,7 @@ def own_case(inp):
     except Exception as e:
         err = type(e).__name__
     what = "%s,%s,%s,%s" % ("backward" if inp["invert"] else "forward", "centre" if inp["centre"] else "full-its", inp["strategy"], mode)
-    return {"G": a[0], "H": b[0], "mode": mode, "want": want, "got": got, "raw": raw, "model": pm, "what": what, "full": not inp["centre"]}
+    return {"G": a[0], "H": b[0], "mode": mode, "want": want, "got": got, "raw": raw, "model": pm, "what": what, "strategy": inp["strategy"], "invert": bool(inp["invert"]), "full": not inp["centre"]}
 
 
 class S(core.Stage):
